@@ -47,7 +47,7 @@ const c36Proceed = 10 * time.Second
 
 func TestVerif_C36_Model(t *testing.T) {
 	rec := vstat.New(t, "C36", "model",
-		"sequences of 6..36 ops on one Throttler built from a generated delay table (1..7 entries, first 0 (rarely 1-3ms), others 1-6ms or 1h), release rate 0..4, idle timeout off / 1h / 45-60ms: Signal, Release, Reset, idle-wait (sleep past the idle timeout, then level must reach 0 within 10s), Delay with a live context, Delay with a context that times out after 2-5ms, Delay with a context cancelled after 2ms or before the call; Level and GetDelay are compared with the model after every op; keepalive (two touches 0.55 idle apart, observed 0.55 idle later: the level must survive); non-trivial = the level hit the ceiling or was clamped at the floor by Release, and at least one Delay waited or was cut short by its context; distinct by table+op sequence; cases in which the clock shows that the idle timer may have fired outside a controlled wait are discarded (label discarded:*)")
+		"sequences of 6..36 ops on one Throttler built from a generated delay table (1..7 entries, first 0 (rarely 1-3ms), others 1-6ms or 1h), release rate 0..4, idle timeout off / 1h / 45-60ms: Signal, Release, Reset, idle-wait (sleep past the idle timeout, then level must reach 0 within 10s), Delay with a live context, Delay with a context that times out after 2-5ms, Delay with a context cancelled after 2ms or before the call, Delay with a context that has a 1h deadline (WithTimeout/WithDeadline) and is cancelled explicitly after 2ms; Level and GetDelay are compared with the model after every op; keepalive (two touches 0.55 idle apart, observed 0.55 idle later: the level must survive); non-trivial = the level hit the ceiling or was clamped at the floor by Release, and at least one Delay waited or was cut short by its context; distinct by table+op sequence; cases in which the clock shows that the idle timer may have fired outside a controlled wait are discarded (label discarded:*)")
 	rapid.Check(t, func(rt *rapid.T) {
 		nDel := rapid.IntRange(1, 7).Draw(rt, "ndelays")
 		delays := make([]time.Duration, nDel)
@@ -159,7 +159,7 @@ func TestVerif_C36_Model(t *testing.T) {
 				}
 				observe("after idle-settle")
 			}
-			kinds := []string{"signal", "signal", "signal", "signal", "release", "release", "reset", "delay", "delay-deadline", "delay-cancel", "delay-dead"}
+			kinds := []string{"signal", "signal", "signal", "signal", "release", "release", "reset", "delay", "delay-deadline", "delay-cancel", "delay-dead", "delay-deadline-cancel", "delay-deadline-cancel"}
 			if timed {
 				kinds = append(kinds, "idle-wait", "keepalive-signal", "keepalive-release")
 			}
@@ -222,7 +222,7 @@ func TestVerif_C36_Model(t *testing.T) {
 				}
 				time.Sleep(time.Until(t0.Add(idle * 55 / 100)))
 				keepalives++
-			case "delay", "delay-deadline", "delay-cancel", "delay-dead":
+			case "delay", "delay-deadline", "delay-cancel", "delay-dead", "delay-deadline-cancel":
 				d := delays[lvl]
 				ctx, cancel := context.WithCancel(context.Background())
 				var wantCtxErr error
@@ -238,6 +238,18 @@ func TestVerif_C36_Model(t *testing.T) {
 				case "delay-dead":
 					cancel()
 					wantCtxErr = context.Canceled
+				case "delay-deadline-cancel":
+					// a context that carries a far deadline (WithTimeout or
+					// WithDeadline, 1h) and is cancelled explicitly long before it
+					cancel()
+					if rapid.Bool().Draw(rt, "withDeadline") {
+						ctx, cancel = context.WithDeadline(context.Background(), time.Now().Add(time.Hour))
+					} else {
+						ctx, cancel = context.WithTimeout(context.Background(), time.Hour)
+					}
+					wantCtxErr = context.Canceled
+					tm := time.AfterFunc(2*time.Millisecond, cancel)
+					defer tm.Stop()
 				default:
 					if d >= time.Hour {
 						// a live context with an hour of delay would block the case:
